@@ -128,10 +128,13 @@ Print Assumptions parse_total.
     list of expressions and [kss] ANY spelling of them by the token grammar of [Spec]
     ([or_k]: each expression a left-associated [|]-chain of postfix pieces, any
     sub-expression wrapped in any number of parenthesis pairs).  Lay the tokens out as text
-    with arbitrary runs of space/tab/newline before every token and at the end (two adjacent
-    predicate tokens separated by at least one).  Then lexing and parsing that text yields
+    with arbitrary runs of whitespace (any Unicode White_Space character: space, tab, LF, CR,
+    FF, VT, NEL, NBSP, ...) before every token and at the end (two adjacent predicate tokens
+    separated by at least one).  Then lexing and parsing that text yields
     exactly [es].  Hence two texts that differ only in redundant parentheses and whitespace
-    parse to the same expressions, and so denote the same language. *)
+    parse to the same expressions, and so denote the same language.
+    (Before the repair recorded in known_findings/C16.json the lexer skipped only space, tab
+    and newline and this theorem was false for e.g. "1 2\r\n".) *)
 Theorem parens_ws_irrelevant :
   forall (es : list expr) (kss : list (list tkind)) (items : list (list N * tkind)) (trail : list N),
     Forall2 (or_k pred_from_str) es kss ->
@@ -145,12 +148,23 @@ Proof.
 Qed.
 Print Assumptions parens_ws_irrelevant.
 Example parens_ws_irrelevant_nonvacuous :
-  (* "(1|2)+ 3"  and  " ( ( 1 ) |(2 ) )+\n((3))\t" *)
+  (* "(1|2)+ 3"  and  " ( ( 1 ) |(2 ) )+\r\n((3))\t" *)
   parse_pattern [40; 49; 124; 50; 41; 43; 32; 51]
-  = parse_pattern [32; 40; 32; 40; 32; 49; 32; 41; 32; 124; 40; 50; 32; 41; 32; 41; 43; 10; 40; 40; 51; 41; 41; 9]
+  = parse_pattern [32; 40; 32; 40; 32; 49; 32; 41; 32; 124; 40; 50; 32; 41; 32; 41; 43; 13; 10; 40; 40; 51; 41; 41; 9]
   /\ parse_pattern [40; 49; 124; 50; 41; 43; 32; 51]
      = Ok [EPlus (EOr (EPred (mkPred 1 None IfAny)) (EPred (mkPred 2 None IfAny))); EPred (mkPred 3 None IfAny)].
 Proof. vm_compute. auto. Qed.
+
+(** Every hop pattern has a text form: the fully parenthesised spelling with one space
+    before each token lexes and parses back to exactly the pattern (all expression lists whose
+    predicates are printable, i.e. satisfy the premises of [pred_print_parse] below).  So the
+    premises of [parens_ws_irrelevant] are satisfiable for every pattern. *)
+Theorem every_pattern_has_text :
+  forall es : list expr,
+    Forall printable (flat_map preds_of es) ->
+    parse_pattern (text_of es) = Ok es.
+Proof. exact text_roundtrip. Qed.
+Print Assumptions every_pattern_has_text.
 
 (** the grammar is closed under wrapping any sub-expression in one more pair of parentheses,
     and regrouping an alternation does not change its language *)
